@@ -5,6 +5,7 @@ mod conn;
 mod conn_gen;
 mod codec;
 mod frame;
+mod gates;
 mod rng;
 mod tables;
 
@@ -26,6 +27,7 @@ fn main() {
     match args[1].as_str() {
         "alloc" => alloc::generate(tier, seed, &mut out),
         "frame" => frame::generate(tier, seed, &mut out),
+        "gates" => gates::generate(tier, seed, &mut out),
         "conn" => conn_gen::generate(tier, seed, &args[4.min(args.len())..], &mut out),
         "tables" => tables::generate(tier, seed, &mut out),
         "codec" => codec::generate(tier, seed, &mut out),
